@@ -19,7 +19,9 @@ use crate::rnd::Gen;
 use crate::rt;
 use crate::scen_tcp::*;
 
-const ENDINGS: [Ending; 8] = [
+const ENDINGS: [Ending; 10] = [
+    Ending::AppResetAfterWrite,
+    Ending::TargetResetAfterWrite,
     Ending::AppAfterWrite,
     Ending::AppAfterAll,
     Ending::AppAbandon,
@@ -167,7 +169,7 @@ pub fn execute_c15(plan: &Plan) -> Outcome {
                 }
                 continue;
             }
-            let app_closes = matches!(f.ending, Ending::AppAfterWrite | Ending::AppAfterAll | Ending::AppAbandon | Ending::AppReset);
+            let app_closes = matches!(f.ending, Ending::AppAfterWrite | Ending::AppAfterAll | Ending::AppAbandon | Ending::AppReset | Ending::AppResetAfterWrite);
             let (closer, other, closer_name, other_name) = if app_closes { (&o.app, &o.target, "application", "target") } else { (&o.target, &o.app, "target", "application") };
             // (2) the other side observes the end promptly
             if other_name == "target" && o.target_accepts == 0 {
@@ -188,6 +190,29 @@ pub fn execute_c15(plan: &Plan) -> Outcome {
             }
             // (1) what the closing side sent before it closed gracefully is delivered first
             let graceful = matches!(f.ending, Ending::AppAfterWrite | Ending::AppAfterAll | Ending::AppAbandon | Ending::TargetAfterWrite | Ending::TargetAfterAll | Ending::TargetAbandon);
+            // an abort that follows the data (RST ordered after it): the proxy has read all of it before the error, so it is
+            // held to the same rule - but only while the opposite direction is at rest (the teardown race of the known
+            // finding is not this check's subject)
+            let abort_after = matches!(f.ending, Ending::AppResetAfterWrite | Ending::TargetResetAfterWrite);
+            if abort_after && closer.write_err.is_none() {
+                let (got, want, other_complete) = if app_closes { (o.target.recv.len(), want_up.len(), o.app.recv.len() >= want_down.len() && o.target.script_done) } else { (o.app.recv.len(), want_down.len(), o.target.recv.len() >= want_up.len() && o.app.script_done) };
+                if got < want && other_complete {
+                    v.push(Violation::new("C15", sig("data-before-reset-lost"), format!("flow {ix}: the {closer_name} wrote {want} bytes and then aborted (RST after the data); the proxy had received all of it, the {other_name} received {got}")));
+                }
+            }
+            // (4) a side that only half-closed sees the proxy end the flow (that is how it learns that the flow was released)
+            if matches!(f.ending, Ending::AppAfterWrite | Ending::TargetAfterWrite) && !(other_name == "target" && o.target_accepts == 0) {
+                match (closer.fin_ns, &closer.end) {
+                    (Some(_), None) => v.push(Violation::new("C15", sig("flow-not-released-after-half-close"), format!("flow {ix}: the {closer_name} half-closed, the {other_name} saw {:?}, but the proxy never closed the {closer_name}'s connection (timed_out={}) {}", other.end, run.timed_out, run.stall_dump))),
+                    (Some(t0), Some(_)) => {
+                        let last_rx = closer.recv_log.last().map(|x| x.0).unwrap_or(0);
+                        if closer.end_ns.saturating_sub(t0.max(last_rx)) > slack_ns {
+                            v.push(Violation::new("C15", sig("late-release-after-half-close"), format!("flow {ix}: the {closer_name} half-closed; the proxy closed its connection {:.1} s later", (closer.end_ns - t0) as f64 / 1e9)));
+                        }
+                    }
+                    _ => {}
+                }
+            }
             if graceful && closer.write_err.is_none() {
                 let (got, want, other_complete) = if app_closes { (o.target.recv.len(), want_up.len(), o.app.recv.len() >= want_down.len() && o.target.script_done) } else { (o.app.recv.len(), want_down.len(), o.target.recv.len() >= want_up.len() && o.app.script_done) };
                 if got < want {
@@ -211,6 +236,25 @@ pub fn execute_c15(plan: &Plan) -> Outcome {
                     format!("C15/task-leak/{cell}/{name}"),
                     format!("{name}: {} live tasks after the batch, {} when idle; flows: {:?}", run.end_tasks[node], run.idle_tasks[node], plan.flows.iter().map(|f| kind_of(f, link_cut)).collect::<Vec<_>>()),
                 ));
+            }
+        }
+        // (3b) ... and already while the peers that did not close still hold their sockets
+        if let (Some(ms), Some(mt)) = (run.mid_sockets, run.mid_tasks) {
+            for (node, name) in [(0usize, "client"), (1usize, "server")] {
+                if ms[node] != run.idle_sockets[node] && run.end_sockets[node] == run.idle_sockets[node] {
+                    v.push(Violation::new(
+                        "C15",
+                        format!("C15/socket-held-until-peer-closes/{cell}/{name}"),
+                        format!("{name}: every flow had ended, yet with the surviving peers still holding their sockets it had (streams, listeners, udp) {:?} open, {:?} when idle; flows: {:?} {}", ms[node], run.idle_sockets[node], plan.flows.iter().map(|f| kind_of(f, link_cut)).collect::<Vec<_>>(), run.mid_dump),
+                    ));
+                }
+                if mt[node] != run.idle_tasks[node] && run.end_tasks[node] == run.idle_tasks[node] {
+                    v.push(Violation::new(
+                        "C15",
+                        format!("C15/task-held-until-peer-closes/{cell}/{name}"),
+                        format!("{name}: every flow had ended, yet with the surviving peers still holding their sockets it had {} live tasks, {} when idle; flows: {:?}", mt[node], run.idle_tasks[node], plan.flows.iter().map(|f| kind_of(f, link_cut)).collect::<Vec<_>>()),
+                    ));
+                }
             }
         }
         if run.mains_finished.0 || run.mains_finished.1 {
